@@ -5,6 +5,7 @@ import (
 	"context"
 	"encoding/xml"
 	"fmt"
+	"math"
 	"mime"
 	"net/http"
 	"net/url"
@@ -178,7 +179,12 @@ func (h *Handler) handleQuery(r *http.Request, w http.ResponseWriter, query *add
 		q.PropFilters = append(q.PropFilters, *pf)
 	}
 	if query.Limit != nil {
-		q.Limit = int(query.Limit.NResults)
+		if query.Limit.NResults > math.MaxInt {
+			// more than any list can hold: the largest limit there is
+			q.Limit = math.MaxInt
+		} else {
+			q.Limit = int(query.Limit.NResults)
+		}
 		if q.Limit <= 0 {
 			return internal.ServeMultiStatus(w, internal.NewMultiStatus())
 		}
